@@ -112,6 +112,10 @@ pub fn bls_cache_ground() -> EvalResult {
         ("empty-list-default-sig", vec![], Signature::default(), true),
         ("infinity-key-extra-pair", vec![(pk1, b"hello".to_vec()), (inf, b"x".to_vec())], s1.clone(), false),
         ("infinity-key-only", vec![(inf, b"x".to_vec())], Signature::default(), false),
+        ("infinity-key-honest-signature", vec![(inf, b"hello".to_vec())], s1.clone(), false),
+        ("valid-single", vec![(pk1, b"hello".to_vec())], s1.clone(), true),
+        ("tampered-single", vec![(pk1, b"hellO".to_vec())], s1.clone(), false),
+        ("other-key-single", vec![(pk2, b"hello".to_vec())], s1.clone(), false),
     ];
     // a public key on the curve but outside the prime-order subgroup (reachable through from_bytes_unchecked / trusted
     // parsing / point addition): the honest key of sk1 shifted by a pure cofactor point.  No secret key signs for it, so
@@ -153,6 +157,17 @@ pub fn bls_cache_ground() -> EvalResult {
                     "message": format!("case {name}: aggregate_verify = {plain}, aggregate_verify_gt over the precomputed pairings = {gt}, required verdict = {want}"),
                     "clause": "verification from precomputed pairings agrees whenever no key is the point at infinity",
                     "cex": {"unit": "eval", "function": "bls_cache_ground", "input": {"case": name, "warm": "gt"}}}));
+            }
+        }
+        if pairs.len() == 1 {
+            // single verification agrees
+            res.obligations += 1;
+            let single = chia_bls::verify(&sig, &pairs[0].0, pairs[0].1.as_slice());
+            if single == want { res.discharged += 1; } else {
+                res.failures.push(json!({"id": format!("bls_cache_ground/{name}/single"), "function": "verify",
+                    "message": format!("case {name}: verify = {single}, required verdict = {want}"),
+                    "clause": "single verification agrees with aggregate and cache-assisted verification",
+                    "cex": {"unit": "eval", "function": "bls_cache_ground", "input": {"case": name, "warm": "single"}}}));
             }
         }
         for warm in [false, true] {
@@ -531,6 +546,21 @@ pub fn trusted_paths_ground() -> EvalResult {
             let s = spend_of(&mut a, 3, &conds, 0);
             blocks.push(("nine-thousand-assertions", finish(&mut a, &[s])));
         }
+        {
+            // a coin of amount 0 that creates coins of amount 0, next to an ordinary spend
+            let mut a = Allocator::new();
+            let zero_cc = |a: &mut Allocator, ph: u8| -> NodePtr { let op = a.new_atom(&[51]).unwrap(); let p = a.new_atom(&[ph; 32]).unwrap(); let am = a.nil(); list(a, &[op, p, am]) };
+            let c1 = zero_cc(&mut a, 7); let c2 = zero_cc(&mut a, 8); let c3 = cc(&mut a, 9, 3);
+            let q = a.new_atom(&[1]).unwrap();
+            let cl = list(&mut a, &[c1, c2]);
+            let puzzle = a.new_pair(q, cl).unwrap();
+            let par = a.new_atom(&[6u8; 32]).unwrap();
+            let amount = a.nil();
+            let solution = a.nil();
+            let s0 = list(&mut a, &[par, puzzle, amount, solution]);
+            let s1 = spend_of(&mut a, 3, &[c3], 0);
+            blocks.push(("zero-amount-coin-creates-coins", finish(&mut a, &[s0, s1])));
+        }
         for (nm, prog) in blocks { trusted_check_prog(nm, prog, &mut res); }
     }
     res
@@ -572,6 +602,7 @@ const HIST_OPS: &[HOp] = &[
     HOp::Batch { ks: &[(4, 4), (5, 5), (6, 6), (7, 7), (8, 8)] },
     HOp::Batch { ks: &[(4, 4), (4, 9)] }, HOp::Batch { ks: &[(5, 5), (6, 5)] },
     HOp::Batch { ks: &[(3, 3), (4, 4), (5, 5)] },
+    HOp::Batch { ks: &[(4, 4), (4, 9), (5, 5)] }, HOp::Batch { ks: &[(5, 5), (6, 5), (7, 7), (8, 8)] },
 ];
 
 type HModel = std::collections::BTreeMap<i64, (i64, u8)>;
@@ -1090,6 +1121,7 @@ pub fn run(task: &str) -> Option<EvalResult> {
         "dedup_ground" => Some(crate::dedup::dedup_ground()),
         "alloc_ground" => Some(crate::alloc_watch::alloc_ground()),
         "ff_ground" => Some(crate::ff::ff_ground()),
+        "ints_ground" => Some(crate::ints::ints_ground()),
         "roundtrip_ground" => Some(crate::roundtrip::roundtrip_ground(false)),
         "roundtrip_ground:thorough" => Some(crate::roundtrip::roundtrip_ground(true)),
         "pos_v2_hash" => Some(pos_v2_hash()),
